@@ -82,6 +82,32 @@ pub fn observe(inst: &Value, modes: &[String], ctx: &mut Ctx, seed: u64) -> Valu
             json!({"t":"ok","irJson": ir_json_ok, "irRon": ir_ron_ok, "iqRon": iq_ron_ok, "reindexed": reindexed_ok, "bytes": j.len()})
         })).unwrap_or_else(|p| json!({"t":"panic","err": panic_msg(p)}));
     }
+    if has("argcheck") {
+        // C12: argument validation only (InterpretedQuery::from_query_and_arguments), several argument maps per instance
+        use trustfall_core::interpreter::{error::QueryArgumentsError, InterpretedQuery};
+        fn classify(e: &QueryArgumentsError, out: &mut (Vec<String>, Vec<String>, Vec<String>)) {
+            match e {
+                QueryArgumentsError::MissingArguments(v) => out.0.extend(v.iter().cloned()),
+                QueryArgumentsError::UnusedArguments(v) => out.1.extend(v.iter().cloned()),
+                QueryArgumentsError::ArgumentTypeError(n, _, _) => out.2.push(n.clone()),
+                QueryArgumentsError::MultipleErrors(v) => for x in v.0.iter() { classify(x, out); },
+            }
+        }
+        let mut res = vec![];
+        for m in inst["argmaps"].as_array().cloned().unwrap_or_default() {
+            let given: BTreeMap<Arc<str>, FieldValue> = m.as_array().unwrap().iter().map(|p| (Arc::from(p[0].as_str().unwrap()), to_fv(&p[1]))).collect();
+            let iq2 = iq.clone();
+            let r = panic::catch_unwind(AssertUnwindSafe(move || InterpretedQuery::from_query_and_arguments(iq2, Arc::new(given))));
+            res.push(match r {
+                Err(p) => json!({"t":"panic","err": panic_msg(p), "missing": [], "unused": [], "badtype": []}),
+                Ok(Ok(_)) => json!({"t":"ok", "missing": [], "unused": [], "badtype": []}),
+                Ok(Err(e)) => { let mut o = (vec![], vec![], vec![]); classify(&e, &mut o); json!({"t":"argerr","missing": o.0, "unused": o.1, "badtype": o.2, "text": e.to_string().chars().take(300).collect::<String>()}) }
+            });
+        }
+        obs["argcheck"] = json!(res);
+        obs["ir"] = ir_json(&iq);
+        return obs;
+    }
     let mut args = args_of(inst);
     if !has("rawargs") { args.retain(|k, _| iq.ir_query.variables.contains_key(k)); }
     obs["args"] = Value::Object(args.iter().map(|(k, v)| (k.to_string(), crate::val::from_fv(v))).collect());
